@@ -72,6 +72,9 @@ def upgrade(fmt, text, expected=None, via_json=False):
     if r[0] != "ok":
         return {"load": "rejected", "exception": r[1]}
     problems = []
+    if obj.header.version != CURRENT:
+        problems.append("the loaded object still calls itself format %r: it has not been converted to the current model (it would "
+                        "be treated by add() and the readers' version gates as an old-format object)" % (obj.header.version,))
     obs = observe(fmt, obj)
     if expected is not None:
         d = diff(json.loads(json.dumps(obs)) if via_json else obs, expected)
